@@ -396,7 +396,8 @@ def snippet(case):
     elif k == "rmul":
         body = "f = %r * formula(%s)\n" % (case["n"], pystruct(case["structure"]))
     elif k == "ops":
-        body = "L = []\n" + "".join(_op_code(ev) + "\n" for ev in case["history"]) + "f = L[%d]\n" % case["target"]
+        pr = "for x in L: str(x)\n" if case.get("eager") else ""
+        body = "L = []\n" + "".join(_op_code(ev) + "\n" + pr for ev in case["history"]) + "f = L[%d]\n" % case["target"]
     elif k == "mix":
         args = ", ".join("%s, %r" % (COMPONENTS[lab][0], q) for lab, q in case["parts"])
         body = "f = %s(%s%s)\n" % ({"w": "mix_by_weight", "v": "mix_by_volume"}[case["fn"]], args,
@@ -423,7 +424,7 @@ def produce(E, case):
     elif k == "rmul":
         f = case["n"] * E.formula(from_json(E, case["structure"]))
     elif k == "ops":
-        live = Ops(E).build([tuple(ev) for ev in case["history"]])
+        live = Ops(E, eager=bool(case.get("eager"))).build([tuple(ev) for ev in case["history"]])
         f = live[case["target"]]
     elif k == "mix":
         args = []
@@ -675,8 +676,11 @@ def _op_code(ev):
 class Ops(object):
     """The operator graph.  A state is the event history; build() replays it on fresh objects."""
 
-    def __init__(self, E, mults=ALLMAGS, wraps=WRAPS, operands=BASE_ORDER):
+    def __init__(self, E, mults=ALLMAGS, wraps=WRAPS, operands=BASE_ORDER, eager=False):
         self.E, self.mults, self.wraps, self.operands = E, mults, wraps, operands
+        # eager: every formula is printed as soon as it exists, i.e. BEFORE it is used as an operand
+        # (a printer that memoises its text must not hand the stale text on to n*f, f+g, formula(f))
+        self.eager = eager
 
     def fresh(self, label):
         """A fresh base formula.  String bases are parsed once per process and handed out as shallow
@@ -730,6 +734,9 @@ class Ops(object):
         self.target = None
         for ev in hist:
             self.target = self.apply(L, ev)
+            if self.eager:
+                for f in L:
+                    str(f); repr(f)
         return L
 
     def events(self, L, target, first):
@@ -760,11 +767,12 @@ class Ops(object):
 
 
 def shard_ops(args):
-    base, part, nparts, depth, last = args
+    base, part, nparts, depth, last = args[:5]
+    eager = bool(args[5]) if len(args) > 5 else False
     E = env()
     acc = Acc()
-    full = Ops(E)
-    reduced = Ops(E, MULTS_LAST, (2, 1.0000001), BASES_LAST)
+    full = Ops(E, eager=eager)
+    reduced = Ops(E, MULTS_LAST, (2, 1.0000001), BASES_LAST, eager=eager)
 
     def visit(hist):
         try:
@@ -775,7 +783,7 @@ def shard_ops(args):
             acc.outcome("producer-raised:ops:" + hist[-1][0])
             return
         target = full.target
-        case = dict(kind="ops", history=[list(ev) for ev in hist], target=target)
+        case = dict(kind="ops", history=[list(ev) for ev in hist], target=target, eager=eager)
         want = BASE_NAMES.get(hist[0][1]) if len(hist) == 1 else None
         if not check(E, acc, L[target], case, want_name=want) or len(hist) > depth:
             return
@@ -859,6 +867,8 @@ def plan(quick):
     for base in BASE_ORDER:
         n = 6 if quick else 24
         P += [(shard_ops, (base, p, n, 2 if quick else 3, not quick)) for p in range(n)]
+        # the same operator graph with every intermediate printed before it is used (reduced menus)
+        P += [(shard_ops, (base, p, n, 2, True, True)) for p in range(n)]
     # P
     lex = [(1, c01.GAPS6, "all"), (2, c01.GAPS6, "all"),
            (3, (None,), "none") if quick else (3, c01.GAPS2, "adjacent")]
